@@ -808,7 +808,7 @@ class Stream(AbstractStream):
 
     def reset_cache(self):
         """Reset cache regarding equilibrium methods."""
-        self._property_cache_key = None, None
+        self._property_cache_key = [None, None] # Mutable; shared with proxies together with the cache
         self._property_cache = {}
 
     @classmethod
@@ -1209,14 +1209,15 @@ class Stream(AbstractStream):
             else:
                 phase = imol._phase._phase
                 literal = (phase, thermal_condition._T, thermal_condition._P)
-            last_literal, last_composition_key = self._property_cache_key
+            property_cache_key = self._property_cache_key
+            last_literal, last_composition_key = property_cache_key
             if literal == last_literal and (composition_key == last_composition_key):
                 if name in property_cache: 
                     value = property_cache[name]
                     return value * total if flow else value
             else:
                 property_cache.clear()
-            self._property_cache_key = (literal, composition_key.copy())
+            property_cache_key[:] = (literal, composition_key.copy())
             calculate = getattr(self.mixture, name)
             if nophase:
                 property_cache[name] = value = calculate(
